@@ -23,7 +23,7 @@ func (e *Engine) Name() string { return "byzsim" }
 
 func init() {
 	sort.SliceStable(catalogue, func(i, j int) bool { return catalogue[i].Name < catalogue[j].Name })
-	sim.Register(&Engine{}, "C07", "C03", "C09")
+	sim.Register(&Engine{}, "C07", "C03", "C09", "C08")
 }
 
 var situations = []string{"absent", "equal", "ahead", "behind", "diverged"}
@@ -43,6 +43,10 @@ func (e *Engine) Describe(prop string) sim.PropInfo {
 	case "C03":
 		info.Rule = "crafted commit DAGs (every fork/merge shape the generator produces up to 8 commits) with clock perturbations: child clock <= parent, merge clock behind a parent, implausible jump on a non-merge commit, second root, root without creation time, merge commit carrying operations (must be refused); small jump, long-delayed merge, equal edit times on concurrent commits (controls: must be accepted and ordered by (edit time, pack id)); at every applicable position; non-trivial = case judged; distinct = (mutation, position, shape) keys"
 		info.Kinds = []string{"bad-history-accepted", "good-history-refused", "order-not-(edit,packid)", "panic"}
+	case "C08":
+		info.Rule = "per run one generated key history of the author identity (2-5 versions adding, removing and rotating keys at increasing logical edit times, created through git-bug's own identity API on an honest replica with the edit clock driven to the wanted values) crossed with a commit at every logical time around each change (T-1, T, T+1, T+3) in every signing mode: key in force, removed key, not-yet-valid key, stranger's key, unsigned, valid signature transplanted onto altered content, and git-bug's own signing path; the victim runs the real fetch+merge; reference = keys of the last version whose time <= T; evaluations = cases; distinct = (mode, keys in force, time class)"
+		info.Kinds = []string{"panic", "bad-signature-accepted", "unsigned-accepted-with-key-in-force", "good-signature-refused", "unsigned-refused-without-key"}
+		info.Assumptions = append(info.Assumptions, "PGP keys come from a committed pool of 5 RSA keys generated once with identity.GenerateKey")
 	case "C09":
 		info.Rule = "crafted identity version chains (1-3 versions) with per-version mutations: decreasing clocks, dropped clocks, no name and login, unsafe characters, wrong format version, not JSON, missing/extra tree entries, ref/id mismatch; crossed with local situation (absent, equal, behind); must be refused with the local identity untouched; a valid chain is the control; distinct = (mutation, position, situation)"
 		info.Kinds = []string{"invalid-identity-accepted", "diverged-changed-local", "ff-not-applied", "panic"}
@@ -122,6 +126,9 @@ func (e *Engine) Generate(prop, tier string, seed uint64, run int) *sim.Plan {
 				addCase("local", m.Name, c, o)
 			}
 		}
+	}
+	if prop == "C08" {
+		e.genSigCases(p, r)
 	}
 	if prop == "C07" || prop == "C09" {
 		for _, m := range identCatalogue {
@@ -383,6 +390,8 @@ func (e *Engine) Execute(p *sim.Plan, keepLog bool) (res *sim.RunResult) {
 				vs, note = e.localCase(p, st, res, keepLog)
 			case "ident":
 				vs, note = e.identCase(p, st, res, keepLog)
+			case "sig":
+				vs, note = e.sigCase(p, st, res, keepLog)
 			}
 		}()
 		if res.HarnessErr != "" {
